@@ -478,7 +478,7 @@ def extra_C18(prog, impl, monline):
 PROPS["C18"] = dict(
     title="The block-state tree mirrors the source nesting",
     projection="tree",
-    monitors=[("C18", "all")],
+    monitors=[("C18", "all"), ("C18v", "accepted_wf")],
     extra_check=extra_C18,
     domain="all",
     rule="corpus + generated programs with nested blocks; the monitor checks tree shape against the source and the "
@@ -488,9 +488,10 @@ PROPS["C18"] = dict(
     level_text="Coq theorems over the model for ALL programs: the tree of blocks has exactly the shape of the source nesting "
                "(else-if blocks are siblings; an else wins over an else-if), every block's stack is an order-preserving "
                "subsequence of its parent's and of the root's. PARTIAL: the value-table clause (each block's table holds exactly "
-               "the names declared directly in it) is covered by the correspondence on the tree projection only; parent links "
-               "are positional in the model and checked with Rc::ptr_eq by the harness.",
-    assumptions=["value-table clause and parent links: correspondence / harness check only"],
+               "the names declared directly in it, bound to their latest declaration) is not yet a theorem: it is decided on the "
+               "implementation's outputs by the monitor chk_C18_values and tied by the correspondence on the tree projection; "
+               "parent links are positional in the model and checked with Rc::ptr_eq by the harness.",
+    assumptions=["value-table clause: monitor + correspondence only; parent links: harness check"],
 )
 
 
@@ -617,6 +618,53 @@ PENDING["C13"] = dict(
                "behaviours the functional model cannot exhibit; they are covered by running the implementation under "
                "catch_unwind on the generated programs only.",
     assumptions=["runtime panics outside the functional model (borrow state, native stack, allocation) are explored, not proved"],
+)
+
+
+PENDING["C03"] = dict(
+    title="Names resolve by lexical scoping and operands keep source order",
+    projection="stacks",
+    monitors=[("C03", "accepted_wf")],
+    domain="accepted_wf",
+    rule="accepted, well-formed programs; identifiers from a 14-name pool so that parameters, lets in sibling and nested "
+         "blocks and constants share names; the monitor compares the event trace of the implementation's root stack with an "
+         "independent lexical resolver over the source; non-trivial = at least one name declared twice in the function and at "
+         "least three blocks; distinct = distinct program texts",
+    nontrivial=lambda prog, out, monline="": out.count("(block ") >= 3 and re.search(r'\(v "([^"]+)\.[0-9]+"', out) is not None,
+    assumptions=["events: declarations, reads, field reads, constant reads, assignments, calls, extension leaves, returns"],
+)
+PENDING["C04"] = dict(
+    title="The emitted instruction stack is well-typed",
+    projection="stacks",
+    monitors=[("C04", "accepted_wf")],
+    domain="accepted_wf",
+    rule="accepted, well-formed programs; one typing pass over the implementation's root stacks against the global tables of "
+         "the same run; non-trivial = at least one Call with arguments or one struct field read, and >= 10 instructions; "
+         "distinct = distinct program texts",
+    nontrivial=lambda prog, out, monline="": ("(ExpressionStructValue " in out or "(Call " in out) and out.count("(reg ") >= 10,
+    assumptions=["F7 enters through the operand rule (type of the instruction defining n-1); F2 is outside the domain (wf)"],
+)
+PENDING["C06"] = dict(
+    title="Every computed value is the value the source expression denotes",
+    projection="stacks",
+    monitors=[("C06", "accepted_wf")],
+    domain="accepted_wf",
+    rule="accepted, well-formed programs; register operands expanded through their defining instructions and compared, "
+         "modulo bracketing, with the source expression at every let / assignment / call argument / return / condition; "
+         "non-trivial = at least one logic condition or a chain of >= 3 operators; distinct = distinct program texts",
+    nontrivial=lambda prog, out, monline="": "(LogicCondition " in out or out.count("(ExpressionOperation ") >= 3,
+    assumptions=["compared modulo bracketing (C07); F7 through the operand rule"],
+)
+PENDING["C19"] = dict(
+    title="Extension expressions are opaque leaves evaluated once, in place",
+    projection="stacks",
+    monitors=[("C19", "accepted_wf")],
+    domain="accepted_wf",
+    rule="accepted, well-formed programs with extension leaves in every expression position (operand, initialiser, argument, "
+         "condition side, return value, inside brackets); non-trivial = at least three extension leaves and two blocks; "
+         "distinct = distinct program texts",
+    nontrivial=lambda prog, out, monline="": out.count("(Ext ") >= 3 and out.count("(block ") >= 2,
+    assumptions=["holds for the fixed harness extension (allocate a register, push one instruction, return a register result)"],
 )
 
 
